@@ -179,8 +179,9 @@ func (h *Handler) Handle(cx *layer4.Connection, next layer4.Handler) error {
 		zap.String("local", nextConn.LocalAddr().String()),
 	)
 
-	// Set conn as a custom variable on cx.
-	cx.SetVar("l4.proxy_protocol.conn", conn)
+	// Set the connection as a custom variable on cx: a proxy handler that sends a PROXY
+	// header of its own takes the client's addresses from it (see GetConn).
+	cx.SetVar("l4.proxy_protocol.conn", nextConn)
 
 	// The addresses of the connection are from now on those the header declares
 	repl := cx.Context.Value(layer4.ReplacerCtxKey).(*caddy.Replacer)
